@@ -11,8 +11,8 @@
     response its lookup accepted the frame for (79e8d00).  The peer is
     ARBITRARY: frames with any tag may arrive at any time (replies to requests
     never completely sent, duplicated or forged replies). *)
-From Coq Require Import NArith Arith List Bool String.
-From P9V Require Import gen.ConstGen gen.ClientGen Client.Pool Client.PoolProofs Client.Fids Client.Mux Client.MuxProofs Client.MuxToken Client.SourceShape Client.ClientModel Client.ClientProofs.
+From Coq Require Import ZArith NArith Arith List Bool String.
+From P9V Require Import gen.ConstGen gen.ClientGen Client.Pool Client.PoolProofs Client.Fids Client.Mux Client.MuxProofs Client.MuxToken Client.SourceShape Client.ClientModel Client.ClientProofs Client.PoolPrims gen.PoolGen Client.PoolTie.
 Import ListNotations.
 Open Scope nat_scope.
 
@@ -47,14 +47,26 @@ Qed.
 Print Assumptions C10_pool_never_sentinel.
 
 (** the bounds NewClient gives the two pools, read from the source: start 1, limit noTag / noFID — so the two
-    instances of the theorem above are the client's pools; pool.Get/Put run under the pool's mutex (pool_locked),
-    which is what lets the sequential allocator model stand for concurrent callers *)
+    instances of the theorem above are the client's pools *)
 Theorem C10_client_pools :
-  newclient_pools = [("tagPool", "1", "uint64(noTag)"); ("fidPool", "1", "uint64(noFID)")] /\
-  src_pool_Get = spec_src_pool_Get /\ src_pool_Put = spec_src_pool_Put /\
-  nth 0 spec_src_pool_Get "" = "c.mu.Lock()" /\ nth 1 spec_src_pool_Get "" = "defer c.mu.Unlock()" /\
-  spec_src_pool_Put = ["c.mu.Lock()"; "c.cache = append(c.cache, v)"; "c.mu.Unlock()"].
-Proof. repeat split. Qed.
+  newclient_pools = [("tagPool", "1", "uint64(noTag)"); ("fidPool", "1", "uint64(noFID)")].
+Proof. reflexivity. Qed.
+
+(** TIE BY TRANSLATION: gen/PoolGen.v holds pool.Get and pool.Put as go2coq TRANSLATED them from p9/pool.go on
+    this run (symbolic execution of the bodies over the Go slice: index, re-slice, append, start++ with the
+    uint64 wrap; operations that would panic yield None) -- they ARE Pool.pool_get / Pool.pool_put for every
+    pool state (the model keeps the stack head-first: [rev]), never panic, and run between mu.Lock and the
+    deferred / final mu.Unlock, which is what lets the sequential allocator model stand for concurrent callers *)
+Theorem C10_source_pool_get_is_model : forall p,
+  gen_pool_Get (rev (p_cache p)) (Z.of_N (p_start p)) (Z.of_N (p_limit p)) = Some (enc_get (pool_get p)).
+Proof. exact gen_pool_Get_is_model. Qed.
+Print Assumptions C10_source_pool_get_is_model.
+Theorem C10_source_pool_put_is_model : forall p v,
+  gen_pool_Put (rev (p_cache p)) (Z.of_N (p_start p)) (Z.of_N (p_limit p)) (Z.of_N v)
+  = Some (rev (p_cache (pool_put p v)), Z.of_N (p_start (pool_put p v))).
+Proof. exact gen_pool_Put_is_model. Qed.
+Theorem C10_source_pool_locked : gen_pool_Get_locked = true /\ gen_pool_Put_locked = true.
+Proof. exact gen_pool_locked. Qed.
 
 (** Get fails only when every value of the range is outstanding *)
 Theorem C10_pool_exhausted : forall start0 limit ops pf out res,
